@@ -62,6 +62,8 @@ def cases(tier):
                 out.append({"kind": "faces", "grid": sg})
                 out.append({"kind": "faces", "grid": dict(sg, scale=-30)})
         out.append({"kind": "labels", "cls": cls})
+        for other in U.CLASSES:
+            out.append({"kind": "two_meshes", "cls": cls, "other": other})
     return out
 
 
@@ -260,6 +262,22 @@ def run_case(case):
         fc = [np.arange(n + 1) * (U.length(kd, n) / n) for kd, n in zip(kinds, shape)]
         _check_mesh(cls, mesh, fc, res, "%s(np.int64 N=%s)" % (cls, shape), exact_faces=False)
         res["sample"] = {"cls": cls, "shape": shape}
+    elif k == "two_meshes":
+        # a grid keeps its geometry and its labels when grids of other classes are built before and after it
+        cls, other = case["cls"], case["other"]
+        d, d2 = U.dim(cls), U.dim(other)
+        sa = U.spec(cls, (2, 3, 4)[:d], ("I",) * d, 1)
+        sb = U.spec(other, (3, 2, 5)[:d2], ("I",) * d2, 0)
+        m_before = U.make_mesh(sb)
+        mesh = U.make_mesh(sa)
+        m_after = U.make_mesh(sb)
+        m_after_nl = getattr(pf, other)(*[int(n) for n in sb["shape"]], *[U.length(kd, n) for kd, n in zip(U.AXES[other], sb["shape"])])
+        _check_mesh(cls, mesh, U.spec_faces(sa), res, "%s with %s grids built before and after it" % (U.spec_id(sa), other))
+        _check_mesh(other, m_before, U.spec_faces(sb), res, "%s (built first) after a %s grid was built" % (U.spec_id(sb), cls))
+        LBL.check_mesh_labels(cls, res, "C10")
+        for f in res["findings"]:
+            f["key"] = f["key"].replace("C10:", "C10:two_meshes:", 1) if "theta_linear" not in f["key"] else f["key"]
+        res["sample"] = {"cls": cls, "other": other}
     elif k == "labels":
         LBL.check_mesh_labels(case["cls"], res, "C10")
         LBL.check_face_labels(case["cls"], res, "C10")      # vector components (FaceVariable) as well
